@@ -44,6 +44,9 @@ pub struct Case {
     /// from genesis) overtakes it, then B is extended by a valid block and an invalid one: the
     /// reorganisation back onto B winds blocks that were on the chain before (and may have been
     /// pruned from memory) and fails at its last block
+    /// 2: an early block: after the main chain of m blocks, block m+2 is delivered before block m+1
+    /// (it is stored off-chain), block m+1 becomes the tip, then an invalid block m+3 on top of
+    /// m+2 is offered: a two-block candidate on an empty old chain whose second block fails
     #[serde(default)]
     pub shape: u8,
 }
@@ -96,6 +99,24 @@ fn sel_for(idx: usize, len: usize) -> u16 {
 
 pub fn hist_of(c: &Case) -> HistSpec {
     let mut blocks = vec![];
+    if c.shape == 2 {
+        for i in 0..c.m + 2 {
+            blocks.push(bs(i, c.with_txs, None));
+        }
+        let mut e3 = bs(c.m + 2, c.with_txs, None);
+        match c.kind {
+            Kind::Hdr(e) => e3.corrupt = Some(e),
+            Kind::Tx(e) => e3.bad_tx = Some((e, 1, 0)),
+        }
+        blocks.push(e3);
+        return HistSpec {
+            ncfg: NodeCfg { gp: c.gp, heartbeat: 100, social_stake: 0, loading_completed: c.loading_completed, prune: c.prune },
+            treasury: 0,
+            issuance: vec![(0, 50_000_000), (1, 70_000_000), (0, 30_000_000), (1, 9_000_000), (2, 1_000)],
+            blocks,
+            gt_policy: true,
+        };
+    }
     if c.shape == 1 {
         // B: blocks 1..=m ; A: m+1 blocks from genesis ; B extension: valid, then offending
         for i in 0..c.m {
@@ -182,7 +203,13 @@ pub fn run_case(c: &Case) -> (Vec<(String, String)>, Info) {
     let built = block_on(build_history(&hist));
     let mut info = Info::default();
     let mut v = vec![];
-    let offending_idx = if c.shape == 1 { 1 + c.m + c.m + 1 + 1 } else { 1 + c.m + c.pos };
+    let offending_idx = if c.shape == 2 {
+        1 + c.m + 2
+    } else if c.shape == 1 {
+        1 + c.m + c.m + 1 + 1
+    } else {
+        1 + c.m + c.pos
+    };
     if built.blocks.len() <= offending_idx || built.invalid[offending_idx].is_none() {
         return (v, info); // edit not applicable in this state (discarded)
     }
@@ -194,14 +221,26 @@ pub fn run_case(c: &Case) -> (Vec<(String, String)>, Info) {
         Kind::Hdr(e) => format!("hdr:{:?}", e),
         Kind::Tx(e) => format!("tx:{:?}", e),
     };
-    for (i, b) in built.blocks.iter().enumerate() {
+    // delivery order: as built, except for shape 2 where block m+2 comes before block m+1
+    let mut order: Vec<usize> = (0..built.blocks.len()).collect();
+    if c.shape == 2 && built.blocks.len() == c.m + 4 {
+        order.swap(c.m + 1, c.m + 2);
+    }
+    for i in order {
+        let b = &built.blocks[i];
         if d.dead {
             break;
         }
         // bound: |old| + |new| of the reorganisation this delivery could trigger
         let old_len = c.d as u64;
         let new_len = (i as u64).saturating_sub(c.m as u64);
-        d.step_bound = if c.shape == 1 { 2 * (2 * c.m as u64 + 4) + 2 } else { 2 * (old_len + new_len.max(1)) + 2 };
+        d.step_bound = if c.shape == 2 {
+            2 * 3 + 2
+        } else if c.shape == 1 {
+            2 * (2 * c.m as u64 + 4) + 2
+        } else {
+            2 * (old_len + new_len.max(1)) + 2
+        };
         let before = block_on(snapshot(&d.node, max_id));
         let outs = d.deliver(b);
         for o in &outs {
@@ -295,6 +334,14 @@ pub fn cases(thorough: bool) -> Vec<Case> {
                         out.push(Case { shape: 0, prune: 8, owner, gp, loading_completed: true, m, d, k: d + 1, pos: d, kind, with_txs: true });
                     }
                 }
+            }
+        }
+    }
+    // early block (shape 2): a two-block candidate on an empty old chain whose second block fails
+    for m in 1..=(if thorough { 6 } else { 4 }) {
+        for kind in kinds.iter().step_by(if thorough { 1 } else { 3 }) {
+            for owner in [5u8, 0] {
+                out.push(Case { shape: 2, prune: 8, owner, gp: 100, loading_completed: false, m, d: 0, k: 2, pos: 1, kind: *kind, with_txs: true });
             }
         }
     }
